@@ -643,6 +643,9 @@ def parent_main(args):
                 harness_errors.append("evidence does not validate: %s" % str(e)[:500])
         with open(evpath, "w") as fh:
             json.dump(evidence, fh, indent=1, sort_keys=True)
+    if os.environ.get("VERIF_LABELS"):
+        for lb, v in sorted(labels.items()):
+            print("  label %-60s %d" % (lb, v))
     print("%s %s seed=%s: %d cases, %d distinct non-trivial, %d violation(s), %.1fs"
           % (prop, tier, seed, evaluations, len(sigs), len(violations), wall))
     if not args.keep:
